@@ -58,6 +58,13 @@ TEXTS = [
   "{\"1\": 1e999}", "\"123\"", "123", "[\"1\", \"2\", \"3\"]", "\ud800", "\x00", "x" * 5000, "[" * 3000 + "]" * 3000,
   "1" + "0" * 5000, "Summary_A_1", "$x.lookupOrAddDerived($a, $b)", "A.lookupOrAddDerived($x)", "A.lookupRecords(Summary_A_1=$id)",
 ]
+# a member that lets one branch of a migration go through (a resolvable visibleCol) next to members
+# that are odd elsewhere in the same object: what is parsed successfully is re-serialised later
+for _vc in ("id", "x", "y", "a", "A", "name"):
+  TEXTS += ["{\"visibleCol\": \"%s\", \"zoom\": 1e999}" % _vc,
+            "{\"visibleCol\": \"%s\", \"n\": NaN, \"l\": [Infinity, -Infinity]}" % _vc,
+            "{\"visibleCol\": \"%s\", \"big\": 1%s}" % (_vc, "0" * 400),
+            "{\"visibleCol\": \"%s\", \"deep\": %s%s, \"s\": \"\\ud800\"}" % (_vc, "[" * 200, "]" * 200)]
 BENIGN = ""
 STRUCTURAL = {("_grist_Tables", "tableId"), ("_grist_Tables_column", "colId"), ("_grist_Tables_column", "type"),
               ("_grist_Tables_column", "formula"), ("_grist_Views_section", "parentKey")}
